@@ -150,7 +150,9 @@ func budget(tier string) time.Duration {
 	if tier == "thorough" {
 		return 30 * time.Minute
 	}
-	return 150 * time.Second
+	// every quick check finishes in 20-100 s on an idle 16-core machine; the budget only matters on a loaded or slower
+	// one, where cutting the deepest level short (exhaustive:false) would silently narrow what a quick run explores
+	return 300 * time.Second
 }
 
 func workerProcs(m Meta) int {
